@@ -25,11 +25,15 @@ type optVec struct {
 	Align      bool `json:"align,omitempty"`
 	WriteLimit int  `json:"write_limit,omitempty"`
 	OneByte    bool `json:"one_byte_sink,omitempty"`
+	// FloatFormat "%g" is the documented default verb spelled out (the shortest
+	// text that reads back as the same float64)
+	FloatFormat string `json:"float_format,omitempty"`
 }
 
 func (o *optVec) options() *ojg.Options {
 	op := ojg.DefaultOptions
 	op.Indent, op.Tab, op.Sort = o.Indent, o.Tab, o.Sort
+	op.FloatFormat = o.FloatFormat
 	op.OmitNil, op.OmitEmpty, op.HTMLUnsafe = o.OmitNil, o.OmitEmpty, o.HTMLUnsafe
 	if o.WriteLimit > 0 {
 		op.WriteLimit = o.WriteLimit
